@@ -282,7 +282,8 @@ def build_case(rng):
                     ("derived", "prop", "sleeptime", sleep), ("derived", "prop", "jitter", jit)]
         elif what == "domains" and rng.random() < 0.15:
             # SMB / TCP beacons carry an empty domain list
-            recs.append(tlv.ptr(8, b"", pad=rng.choice([0, 1, 256])))
+            stale = rng.choice([b"", b"", b"\0old.example.com,/stale", b"\0\0x"])  # (bytes behind the terminating NUL are not part of the list)
+            recs.append(tlv.ptr(8, stale, pad=rng.choice([len(stale), len(stale) + 1, 256])))
             exp += [("derived", "prop", "domain_uri_pairs", []), ("derived", "prop", "domains", []), ("derived", "prop", "uris", [])]
         elif what == "domains":
             n = rng.randrange(1, 5)
@@ -293,6 +294,8 @@ def build_case(rng):
             if rng.random() < 0.3 and n > 1:
                 uris[-1] = uris[0]
             val = ",".join(f"{d},{u}" for d, u in zip(doms, uris)).encode()
+            if rng.random() < 0.2:
+                val += b"\0" + rng.choice([b"stale.example.com,/old", b",", b"\0,x"])
             recs.append(tlv.ptr(8, val, pad=rng.choice([len(val), len(val) + 1, 256])))
             exp.append(("derived", "prop", "domain_uri_pairs", list(zip(doms, uris))))
             exp.append(("derived", "prop", "domains", list(dict.fromkeys(doms))))
